@@ -4,6 +4,7 @@ import (
 	"encoding/json"
 	"fmt"
 	"io"
+	"strings"
 )
 
 type CliCase struct {
@@ -32,6 +33,11 @@ func genCli(g *G, n int, out io.Writer) {
 		c := genC01Graph(g, i, true)
 		prof := ProfileSpec{Name: fmt.Sprintf("cli %d", i), Atoms: c.Atoms, Paths: c.Paths, Validations: c.Validations}
 		inputs = append(inputs, pd{"random", prof.Render(), c.Graph.RenderFlat()})
+	}
+	// reports containing characters that are special to formatting functions
+	for _, msg := range []string{"must be 100%", "50%d of %s %v %%", "tab\there \\ back\\slash \"q\"", "é 😀 \u2028", "$1 ${x} `tick`"} {
+		p := strings.Replace(okProfile, "message: m", "message: "+yq(msg), 1)
+		inputs = append(inputs, pd{"special-chars", p, okData})
 	}
 	bad := []pd{
 		{"bad-profile", "profile: [", okData},
